@@ -5,6 +5,8 @@ import (
 	"go/types"
 	"strings"
 
+	"golang.org/x/tools/go/ssa"
+
 	"cadcheck/core"
 )
 
@@ -49,7 +51,7 @@ func indexOf(xs []string, s string) int {
 }
 
 func c52(r *core.Run) {
-	r.Explanation = "Decided clauses: (R1) child expressions are evaluated (interpreter) / compiled (compiler) in the order the language defines: binary left before right, dictionary entry key before value, conditional test before its branches, index target before index; " +
+	r.Explanation = "Decided clauses: (R1) child expressions are evaluated (interpreter) / compiled (compiler) in the order the language defines: binary left before right, dictionary entry key before value, conditional test before its branches, index target before index, assignment target before assigned value; " +
 		"(R2) short-circuit: for ||, && and ?? the right operand is evaluated only after a test of the left operand's value — the interpreter's arm returns on the deciding left value before calling the right-operand thunk, and the compiler emits a conditional jump between the code of the left and the right operand."
 	r.NotDecided = "exactly-once evaluation under all nesting; VM jump targets; argument evaluation order through desugared code."
 	w := r.W
@@ -107,7 +109,36 @@ func c52(r *core.Run) {
 	} else {
 		r.Undecided("R1.order", "interpreter.(Interpreter).VisitBinaryExpression", "does not resolve")
 	}
-	r.Floor("R1.order", 7)
+	// assignment: the target's sub-expressions (indexed value, index) are evaluated before the assigned value — in the
+	// interpreter the target's getter/setter is resolved before anything evaluates the value
+	if fn := mustFn(r, "R1.order", "interpreter", "Interpreter", "VisitAssignmentStatement"); fn != nil {
+		var targets, values []ssa.CallInstruction
+		for _, c := range core.Calls(fn, false) {
+			if o := core.Callee(c); o != nil {
+				switch o.Name() {
+				case "assignmentGetterSetter":
+					targets = append(targets, c)
+				case "evalExpression", "visitAssignment":
+					values = append(values, c)
+				}
+			}
+		}
+		ok := len(targets) > 0 && len(values) > 0
+		for _, v := range values {
+			dom := false
+			for _, t := range targets {
+				if core.Dominates(t, v) {
+					dom = true
+				}
+			}
+			if !dom {
+				ok = false
+			}
+		}
+		r.Check(ok, "R1.order", "interpreter.(Interpreter).VisitAssignmentStatement: target before value", fn.Pos(), "the target is resolved before the value is evaluated on every path",
+			"the assigned value is evaluated on a path that has not resolved the target yet: `xs[i()] = v()` runs v() before i() in the interpreter, the VM evaluates the target first")
+	}
+	r.Floor("R1.order", 8)
 
 	// R2 short circuit
 	ip := w.Pkg("interpreter")
